@@ -414,11 +414,15 @@ theorem step_unique {steps : List Step} (hnd : (labels steps).Nodup) {s s' : Ste
   | nil => simp at hs
   | cons s0 rest ih =>
     simp only [labels, List.map_cons, List.nodup_cons] at hnd
-    rcases List.mem_cons.1 hs with rfl | hs <;> rcases List.mem_cons.1 hs' with rfl | hs'
-    · rfl
-    · exact absurd (List.mem_map.2 ⟨s', hs', h.symm⟩) hnd.1
-    · exact absurd (List.mem_map.2 ⟨s, hs, h⟩) hnd.1
-    · exact ih hnd.2 hs hs'
+    rcases List.mem_cons.1 hs with e | hr
+    · rcases List.mem_cons.1 hs' with e' | hr'
+      · rw [e, e']
+      · subst e
+        exact absurd (List.mem_map.2 ⟨s', hr', h.symm⟩) hnd.1
+    · rcases List.mem_cons.1 hs' with e' | hr'
+      · subst e'
+        exact absurd (List.mem_map.2 ⟨s, hr, h⟩) hnd.1
+      · exact ih hnd.2 hr hr'
 
 /-- picking one step's calls out of the listed-order concatenation -/
 theorem flatMap_filter_step {steps : List Step} (f : Step → List Call)
